@@ -85,7 +85,7 @@ def make_ops(rng, cfg, profile, tier):
         elif r < 0.81:
             ops.append({'op': 'SPLIT_PARTS', 'a': [rng.randrange(2, 6), rng.randrange(1 << 16) % 5, rng.random() < 0.3]})
         elif r < 0.815:
-            ops.append({'op': rng.choice(['EXTRACT_PARTS', 'ROW_PARTS', 'FD_HESSIAN']),
+            ops.append({'op': rng.choice(['EXTRACT_PARTS', 'ROW_PARTS', 'FD_HESSIAN', 'REMOVE_REBUILD']),
                         'a': [rng.randrange(2, 5), rng.randrange(1 << 16) % 5]})
         elif r < 0.82:
             ops.append({'op': 'ALIAS', 'a': [rng.randrange(64), rng.randrange(1 << 16) % 5, rng.randrange(1 << 16) % 5]})
@@ -356,7 +356,7 @@ class Session:
         kind, a = op['op'], op['a']
         ctx.count('op:' + kind)
         np = self.np
-        if self.cfg.get('panel') and kind in ('PARTS', 'PER_OBS', 'SIM', 'H_NULL', 'SPLIT_PARTS', 'EXTRACT_PARTS', 'ROW_PARTS'):
+        if self.cfg.get('panel') and kind in ('PARTS', 'PER_OBS', 'SIM', 'H_NULL', 'SPLIT_PARTS', 'EXTRACT_PARTS', 'ROW_PARTS', 'REMOVE_REBUILD'):
             # cross-sectional comparisons: replaced by a plain evaluation on panel data
             kind, a = 'LLD', [a[0] if kind != 'PARTS' else 0, (a[1] if len(a) > 1 else a[0]) % 5, False, True, True]
         if kind == 'MAKE':
@@ -382,7 +382,9 @@ class Session:
         elif kind == 'SIM':
             rec = self.objects[a[0] % len(self.objects)]
             x = self.point(a[1])
-            sim = rec['b'].simulate({n: x[n] for n in self.names})
+            # the values are given by name: the order in which the dictionary lists them is immaterial
+            order_ = list(self.names) if a[1] % 2 else list(self.names)[::-1]
+            sim = rec['b'].simulate({n: x[n] for n in order_})
             _, rows, w = self.ref_ll(x, rec['table'])
             lcol = 'log_like' if 'log_like' in sim.columns else 'loglike'
             wcol = 'weight' if 'weight' in sim.columns else ('weights' if 'weights' in sim.columns else None)
@@ -467,6 +469,38 @@ class Session:
                 want += w[pos] * rows[pos]
             self._cmp(f'sum of the log likelihoods of the one-row parts {positions}', tot, want, oracle='I04.parts')
             ctx.log(kind, P, fhex(tot))
+        elif kind == 'REMOVE_REBUILD':
+            # an object is built on a Database, rows are then removed from that Database, and a NEW object is built on it:
+            # the new object sees the remaining rows only (sample size, scaled value, simulation)
+            import biogeme.biogeme as bio
+            import biogeme.database as db
+            import biogeme.expressions as ex
+            x = self.point(a[1])
+            t = self.table.copy()
+            thr = sorted(float(v) for v in t['x0'])[len(t) // 2]
+            keep_t = t[t['x0'] <= thr].reset_index(drop=True)
+            if len(keep_t) == len(t) or len(keep_t) == 0:
+                ctx.log(kind, 'skip')
+            else:
+                d = db.Database('rr', t)
+                ll1, w1, _ = specs.build_formulas(self.cfg)
+                f1 = {'log_like': ll1} if w1 is None else {'log_like': ll1, 'weight': w1}
+                b1 = bio.BIOGEME(d, f1, parameters=self._params(1))
+                b1.calculate_likelihood(self.vec(x), scaled=True)
+                d.remove(ex.Variable('x0') > thr)
+                ll2, w2, _ = specs.build_formulas(self.cfg)
+                f2 = {'log_like': ll2} if w2 is None else {'log_like': ll2, 'weight': w2}
+                b2 = bio.BIOGEME(d, f2, parameters=self._params(a[0]))
+                want, rows, w = self.ref_ll(x, keep_t)
+                self._cmp('log likelihood of an object built after rows were removed from the Database',
+                          float(b2.calculate_likelihood(self.vec(x), scaled=False)), want, oracle='I04.sum')
+                self._cmp('scaled log likelihood of an object built after rows were removed from the Database',
+                          float(b2.calculate_likelihood(self.vec(x), scaled=True)), want / len(keep_t), oracle='I04.scaled')
+                sim = b2.simulate({n: x[n] for n in self.names})
+                self._cmp('per-observation simulated values after rows were removed', [float(v) for v in sim['log_like'].to_list()],
+                          rows, oracle='I04.sim')
+                ctx.probe('object built after rows were removed from a Database that already served an object')
+                ctx.log(kind, len(keep_t))
         elif kind == 'FD_HESSIAN':
             # the finite-difference Hessian of the (unscaled) log likelihood approximates the analytical one
             rec = self.objects[a[0] % len(self.objects)] if self.objects else self.make_object(1, None)
@@ -588,7 +622,13 @@ class Session:
                 b.biogeme_parameters.set_value('optimization_algorithm', 'simple_bounds')
                 b.quick_estimate()
             elif kind == 'H_CHANGE_INIT':
-                b.change_init_values(self.point(a[1]))
+                # the log likelihood "at the starting values" follows the starting values
+                b.calculate_init_likelihood()
+                p_ = self.point(a[1])
+                b.change_init_values(p_)
+                want_, _, _ = self.ref_ll(p_, rec['table'])
+                self._cmp('initial log likelihood after change_init_values on an object that computed it before',
+                          float(b.calculate_init_likelihood()), want_, oracle='I04.init')
             elif kind == 'H_ESTBOOT_FAIL':
                 if self.cfg['K'] >= 2:
                     # fault injection: the optimiser fails inside the bootstrap loop (k-th call); the caller
